@@ -110,6 +110,10 @@ func streamChild(c *Ctx, d time.Duration, prop string, args ...string) bool {
 		os.Stderr.WriteString(stderr.String())
 	}
 	if !done {
+		// keep everything the child wrote: the reason is often far above the tail
+		if c.Out != "" {
+			os.WriteFile(fmt.Sprintf("%s/child-died-%d.stderr.txt", c.Out, time.Now().UnixNano()), stderr.Bytes(), 0644)
+		}
 		tail := lastLines(stderr.String(), 12)
 		if len(tail) > 3000 {
 			tail = tail[len(tail)-3000:]
